@@ -639,7 +639,9 @@ def check_types(ir):
         ir,
         [ir_data.ArrayType, ir_data.Expression],
         _type_check_array_size,
-        skip_descendants_of={ir_data.AtomicType},
+        # Only the array size itself must be an integer; its subexpressions
+        # (e.g., the condition of `c ? 2 : 3`) may have other types.
+        skip_descendants_of={ir_data.AtomicType, ir_data.Expression},
         parameters={"errors": errors},
     )
     traverse_ir.fast_traverse_ir_top_down(
